@@ -16,6 +16,8 @@ and evaluates the property monitor on the implementation's answers (`MONITOR`).
 -/
 import LndModel.Prelude.Lines
 import LndModel.C09.Model
+import LndModel.C09.Path
+import LndModel.C09.Circ
 
 open LndModel LndModel.Lines LndModel.C09
 
@@ -65,6 +67,21 @@ structure St where
   updForeignScid : Nat := 0    -- … whose short channel id is not the link's
   fetchErr : Nat := 0          -- evaluations where no channel_update can be obtained
   vNodeFail : Nat := 0
+  e2e : Nat := 0               -- level 3: payments forwarded (or not) by the middle hop
+  e2eSend : Nat := 0           -- level 3: locally sourced payments (SendHTLC)
+  e2eForwarded : Nat := 0
+  e2eLocal : Nat := 0          -- level 3: refused by the sender's own switch (not an evaluation)
+  e2eBoundary : Nat := 0       -- level 3: evaluations within ±1 of a threshold
+  aux : Nat := 0               -- evaluations with an aux traffic shaper installed
+  auxCustom : Nat := 0
+  auxHandled : Nat := 0
+  auxError : Nat := 0
+  circ : Nat := 0              -- direct calls of Switch.checkCircularForward
+  circRefused : Nat := 0
+  circSameChannel : Nat := 0
+  fau : Nat := 0               -- direct calls of Switch.failAliasUpdate
+  fauSome : Nat := 0
+  fauRelabelled : Nat := 0
   clauseCounts : List (String × Nat) := []   -- MONITOR lines printed per clause (capped per clause)
 
 def mismatch (s : St) (detail : String) : IO St := do
@@ -591,6 +608,248 @@ def step (s : St) (line : String) : IO St := do
           else
             s ← monitor s "switch-reject-names-violated-rule" s!"{implW} although the requested link {req} is not eligible to forward :: {line}"
     return s
+  | "e2e" :: rest =>
+    -- level 3: one payment alice -> bob -> carol; the hop under test is bob
+    let (args, res) := splitArrow rest
+    let some xs := ints? args | mismatch s "e2e: bad integer"
+    match xs with
+    | [min, max, base, rate, tld, rej, maxcltv, bw, inc, out, ein, eout, h, ib, ir] =>
+      let (impl, payload, code) : String × Int × Int := match res with
+        | [v, pl, cd] => (v, (int? pl).getD (-2), (int? cd).getD (-2))
+        | _ => ("?", -2, -2)
+      if impl.startsWith "local:" then return { s with e2eLocal := s.e2eLocal + 1 }
+      let mut s := { s with evals := s.evals + 1, e2e := s.e2e + 1 }
+      -- (X) the model of the path: packet construction of processRemoteAdds from the add and the
+      --     onion payload, then handlePacketAdd over bob's two links (the incoming link carries a
+      --     policy that rejects everything and leads to another peer)
+      let inLink : SwLink := { cand := { scid := 1, eligible := true, p := ⟨1125899906842624, 1, 1099511627776, 900000, 1500⟩,
+                                         c := ⟨1048576, 0, bw.toNat⟩, peer := 1, fetched := some ⟨1, 0, 0⟩ },
+                               chanPoint := 1, inBase := ib, inRate := ir }
+      let outLink : SwLink := { cand := { scid := 2, eligible := true, p := ⟨min.toNat, max.toNat, base.toNat, rate.toNat, tld.toNat⟩,
+                                          c := ⟨rej.toNat, maxcltv.toNat, bw.toNat⟩, peer := 2, fetched := some ⟨2, 0, 0⟩ },
+                                chanPoint := 2, inBase := 0, inRate := 0 }
+      let add : AddMsg := { amount := inc.toNat, expiry := ein.toNat }
+      let fwd : FwdInfo := { nextHop := 2, amountToForward := out.toNat, outgoingCltv := eout.toNat }
+      let k := Gen.mkPacket inLink add fwd
+      let i := k.inputs h.toNat
+      let forwarded := impl == "settled" || impl == "exitfail"
+      match Gen.forwardAdd false false none [inLink, outLink] inLink add fwd h.toNat 0 with
+      | .forward sc =>
+        if !forwarded then
+          s ← mismatch s s!"e2e: model forwards over scid {sc}, impl={impl} {payload} code {code} :: {line}"
+      | .fail f =>
+        let w := Gen.finalWire (f.toLinkError i (some ⟨2, 0, 0⟩))
+        if forwarded then
+          s ← mismatch s s!"e2e: model fails with {f.wire}, impl forwarded ({impl}) :: {line}"
+        else if (w.code : Int) != code || w.payload != payload then
+          s ← mismatch s s!"e2e: model={f.wire} {w.payload} code {w.code} impl={impl} {payload} code {code} :: {line}"
+      -- (S) the property on what the upstream peer observes, exact integers
+      let r := mkRules min max base rate tld rej maxcltv bw inc out ein eout h ib ir
+      if forwarded then
+        s := { s with e2eForwarded := s.e2eForwarded + 1 }
+        if inc < out then
+          s ← monitor s "never-loses-money" s!"forwarded incoming={inc} < outgoing={out} :: {line}"
+        else
+          s ← monitorDecision s true r "accept" line
+      else
+        let implW := wireName impl code
+        -- temporary_channel_failure without its local detail also covers a failed AddHTLC on
+        -- the outgoing channel: not judged here (it is on levels 1 and 2)
+        if !(implW.startsWith "TemporaryChannelFailure") then
+          s ← monitorDecision s true r implW line
+      let nViol := [r.feeOk, r.minOk, r.maxOk, r.soonOk, r.farOk, r.bwOk, r.deltaOk, r.dmaxOk].countP (!·)
+      if nViol ≤ 1 then s := { s with nontrivial := s.nontrivial + 1 }
+      if near (inc - out) r.req || near out min || near out max || near eout (h + rej) ||
+          near eout (h + maxcltv) || near (ein - eout) tld || near (ein - eout) maxcltv then
+        s := { s with e2eBoundary := s.e2eBoundary + 1 }
+      return s
+    | _ => mismatch s s!"e2e: expected 15 integers :: {line.take 80}"
+  | "snd" :: rest =>
+    -- level 3: Switch.SendHTLC of the sender itself (getLocalLink -> CheckHtlcTransit)
+    let (args, res) := splitArrow rest
+    let some xs := ints? args | mismatch s "snd: bad integer"
+    match xs with
+    | [min, max, base, rate, tld, rej, maxcltv, bw, out, eout, h] =>
+      let (impl, payload, code) : String × Int × Int := match res with
+        | [v, pl, cd] => (v, (int? pl).getD (-2), (int? cd).getD (-2))
+        | _ => ("?", -2, -2)
+      let mut s := { s with evals := s.evals + 1, e2eSend := s.e2eSend + 1 }
+      let l : SwLink := { cand := { scid := 1, eligible := true, p := ⟨min.toNat, max.toNat, base.toNat, rate.toNat, tld.toNat⟩,
+                                    c := ⟨rej.toNat, maxcltv.toNat, bw.toNat⟩, peer := 1, fetched := some ⟨1, 0, 0⟩ },
+                          chanPoint := 1, inBase := 0, inRate := 0 }
+      let i : Inputs := ⟨0, out.toNat, 0, eout.toNat, h.toNat, 0, 0⟩
+      let sent := impl == "settled" || impl == "exitfail"
+      let localName := if impl.startsWith "local:" then (impl.drop 6).toString else impl
+      match Gen.sendHTLC none [l] 1 out.toNat eout.toNat h.toNat with
+      | .forward _ =>
+        if !sent then s ← mismatch s s!"snd: model sends, impl={impl} {payload} code {code} :: {line}"
+      | .fail f =>
+        let e := f.toLinkError i (some ⟨1, 0, 0⟩)
+        let w := Gen.finalWire e
+        if sent then s ← mismatch s s!"snd: model fails with {f.wire}, impl sent ({impl}) :: {line}"
+        else if !(impl.startsWith "local:") || e.wire != localName || (w.code : Int) != code || w.payload != payload then
+          s ← mismatch s s!"snd: model={e.wire} {w.payload} code {w.code} impl={impl} {payload} code {code} :: {line}"
+      let domExp := decide (h < 2147483648) && decide (eout < 2147483648) &&
+        decide (rej < 2147483648) && decide (maxcltv < 2147483648)
+      let r : Rules := {
+        feeOk := true, deltaOk := true, dmaxOk := true, domFee := true, inbOverflow := false, req := 0
+        minOk := decide (min ≤ out)
+        maxOk := decide (max = 0) || decide (out ≤ max)
+        soonOk := decide (h + rej < eout)
+        farOk := decide (eout ≤ h + maxcltv)
+        bwOk := decide (out ≤ bw)
+        domExp := domExp }
+      if sent then
+        s := { s with e2eForwarded := s.e2eForwarded + 1 }
+        s ← monitorDecision s false r "accept" line
+      else if impl.startsWith "local:" then
+        s ← monitorDecision s false r (wireName localName code) line
+      let nViol := [r.minOk, r.maxOk, r.soonOk, r.farOk, r.bwOk].countP (!·)
+      if nViol ≤ 1 then s := { s with nontrivial := s.nontrivial + 1 }
+      if near out min || near out max || near eout (h + rej) || near eout (h + maxcltv) then
+        s := { s with e2eBoundary := s.e2eBoundary + 1 }
+      return s
+    | _ => mismatch s s!"snd: expected 11 integers :: {line.take 80}"
+  | "fau" :: rest =>
+    -- Switch.failAliasUpdate(scid, incoming) called directly
+    let (args, res) := splitArrow rest
+    let some xs := ints? args | mismatch s "fau: bad integer"
+    let some rs := ints? res | mismatch s "fau: bad result"
+    if xs.length != 24 || rs.length != 5 then return ← mismatch s s!"fau: malformed :: {line.take 80}"
+    let g (k : Nat) : Int := xs.getD k 0
+    let (scid, inc, ia, a2r, bi, nal, al0, sign) := (g 0, g 1, g 2, g 3, g 4, g 5, g 6, g 7)
+    let fB := mkFp ((xs.drop 8).take 4)
+    let fR := mkFp ((xs.drop 12).take 4)
+    let fS := mkFp ((xs.drop 16).take 4)
+    let own := mkFp ((xs.drop 20).take 4)
+    let asked := rs.getD 0 (-9)
+    let out := mkFp (rs.drop 1)
+    let mut s := { s with evals := s.evals + 1, fau := s.fau + 1 }
+    let optN (x : Int) : Option Nat := if x < 0 then none else some x.toNat
+    let v : AliasView := {
+      isAlias := fun _ => ia == 1
+      aliasToReal := fun k => if k == scid.toNat then optN a2r else none
+      baseIndex := fun k => if k == scid.toNat then optN bi else none
+      aliases := fun k => if some k == optN bi && nal ≥ 0 then
+          some (if nal == 0 then [] else al0.toNat :: List.replicate (nal.toNat - 1) 0) else none
+      -- the later assignments win: the key `scid` itself is looked up last in the chain below
+      fetch := fun k =>
+        if k == scid.toNat then fS.toUpd
+        else if some k == optN a2r then fR.toUpd
+        else if some k == optN bi then fB.toUpd else none
+      signOk := sign == 1 }
+    -- (X)
+    let m := Gen.failAliasUpdate v scid.toNat (inc == 1)
+    let mk := Gen.failAliasFetchKey v scid.toNat
+    if !(UpdFp.ofUpd m == out) then
+      s ← mismatch s s!"fau: model={(UpdFp.ofUpd m).str} impl={out.str} :: {line}"
+    else if (match mk with | some k => (k : Int) | none => -1) != asked then
+      s ← mismatch s s!"fau: model asks for key {mk}, impl asked {asked} :: {line}"
+    -- (S) an update handed out for a failure is the node's current update of the channel that owns
+    --     the id (all fields but the label), and its label never reveals another id than the one
+    --     the sender used / an alias of the channel
+    if out.present then
+      s := { s with fauSome := s.fauSome + 1 }
+      if out.scid != fS.scid || !fS.present then s := { s with fauRelabelled := s.fauRelabelled + 1 }
+      if !own.present || own.flags != out.flags || own.digest != out.digest then
+        s ← monitor s "alias-update-foreign" s!"failAliasUpdate({scid}) returned {out.str}, the channel's current update is {own.str} :: {line}"
+      else if ia == 1 && out.scid != scid then
+        s ← monitor s "alias-update-label" s!"the sender used alias {scid} but the update is labelled {out.scid} :: {line}"
+    if ia == 1 || bi ≥ 0 then s := { s with nontrivial := s.nontrivial + 1 }
+    return s
+  | "afwd" :: rest | "atr" :: rest =>
+    -- CheckHtlcForward / CheckHtlcTransit with cfg.AuxTrafficShaper set
+    let isFwd := ws.head? == some "afwd"
+    let (args, res) := splitArrow rest
+    let some xs0 := ints? args | mismatch s "afwd: bad integer"
+    let nInts := if isFwd then 26 else 22
+    if xs0.length != nInts then return ← mismatch s s!"afwd: expected {nInts} integers :: {line.take 80}"
+    let (cu, hd, abw) := (xs0.getD 0 0, xs0.getD 1 0, xs0.getD 2 0)
+    let xs := xs0.drop 3
+    -- transit lines carry no incoming amount / expiry / inbound fee
+    let ys : List Int := if isFwd then xs.take 15
+      else (xs.take 8) ++ [0, xs.getD 8 0, 0, xs.getD 9 0, xs.getD 10 0, 0, 0]
+    let fixOff := if isFwd then 15 else 11
+    let aliasFp := mkFp ((xs.drop fixOff).take 4)
+    let fetchFp := mkFp ((xs.drop (fixOff + 4)).take 4)
+    match ys with
+    | [min, max, base, rate, tld, rej, maxcltv, bw, inc, out, ein, eout, h, ib, ir] =>
+      let rr := resOfLine res
+      let seen := ((res.drop 8).head?.bind int?).getD (-2)
+      let impl := rr.impl
+      let mut s := { s with evals := s.evals + 1, aux := s.aux + 1 }
+      let aux : Aux := { isCustom := cu == 1
+                         handle := if hd < 0 then none else some (hd == 1)
+                         bandwidth := if abw < 0 then none else some abw.toNat }
+      if aux.isCustom then s := { s with auxCustom := s.auxCustom + 1 }
+      let p : Policy := ⟨min.toNat, max.toNat, base.toNat, rate.toNat, tld.toNat⟩
+      let c : Cfg := ⟨rej.toNat, maxcltv.toNat, bw.toNat⟩
+      let i : Inputs := ⟨inc.toNat, out.toNat, ein.toNat, eout.toNat, h.toNat, ib, ir⟩
+      -- (X)
+      let g : AVerdict := if isFwd then Gen.checkHtlcForwardAux (some aux) p c i
+        else Gen.checkHtlcTransitAux (some aux) p c out.toNat eout.toNat h.toNat
+      let le := g.toLinkError i aliasFp.toUpd fetchFp.toUpd
+      match leDiff le rr with
+      | some d => s ← mismatch s s!"afwd: {d} :: {line}"
+      | none =>
+        let expCalls : Int := match g with
+          | .v x => expectedCalls le x aliasFp.toUpd
+          | .auxError => 0
+        if rr.calls != expCalls then
+          s ← mismatch s s!"afwd: update sources called {rr.calls}, model {expCalls} :: {line}"
+        else if seen != 1 then
+          s ← mismatch s s!"afwd: the traffic shaper was not called as modelled (seen={seen}) :: {line}"
+      -- (S) exact rules with the bandwidth that applies: the shaper's when it handles the
+      --     channel, the link's otherwise; a custom HTLC has no min/max HTLC rule
+      let auxErr := hd < 0 || (hd == 1 && abw < 0)
+      let bwEff : Int := if hd == 1 && abw ≥ 0 then abw else bw
+      if hd == 1 then s := { s with auxHandled := s.auxHandled + 1 }
+      if auxErr then s := { s with auxError := s.auxError + 1 }
+      let r0 := mkRules min max base rate tld rej maxcltv (if auxErr then out else bwEff) inc out ein eout h ib ir
+      let r1 : Rules := if cu == 1 then { r0 with minOk := true, maxOk := true } else r0
+      let r : Rules := if isFwd then r1 else
+        { r1 with feeOk := true, deltaOk := true, dmaxOk := true, domFee := true, inbOverflow := false }
+      let updAvail := aliasFp.present || fetchFp.present
+      let implW := wireName impl rr.code
+      if impl == "accept" && isFwd && inc < out then
+        s ← monitor s "never-loses-money" s!"accepted incoming={inc} < outgoing={out} :: {line}"
+      else if auxErr then
+        -- the shaper failed, no bandwidth was established: temporary_node_failure is the designed
+        -- answer; an acceptance is judged on every rule but the bandwidth; any other rejection must
+        -- name a violated rule, the bandwidth rule being read with the link's own bandwidth
+        if impl == "accept" then
+          s ← monitorDecision s isFwd { r with bwOk := true } implW line "" updAvail
+        else if implW != "TemporaryNodeFailure" then
+          s ← monitorDecision s isFwd { r with bwOk := decide (out ≤ bw) } implW line "" updAvail
+      else
+        s ← monitorDecision s isFwd r implW line "" updAvail
+      s ← monitorEmbedded s rr.code rr.emb [aliasFp, fetchFp] none line
+      let nViol := [r.feeOk, r.minOk, r.maxOk, r.soonOk, r.farOk, r.bwOk, r.deltaOk, r.dmaxOk].countP (!·)
+      if nViol ≤ 1 then s := { s with nontrivial := s.nontrivial + 1 }
+      return s
+    | _ => mismatch s s!"afwd: malformed :: {line.take 80}"
+  | "circ" :: rest =>
+    let (args, res) := splitArrow rest
+    let some xs := ints? args | mismatch s "circ: bad integer"
+    match xs, res with
+    | [inc, out, al, biIn, biOut], [rs] =>
+      let mut s := { s with evals := s.evals + 1, circ := s.circ + 1 }
+      let optN (x : Int) : Option Nat := if x < 0 then none else some x.toNat
+      let bidx : Nat → Option Nat := fun k =>
+        if k == inc.toNat then optN biIn else if k == out.toNat then optN biOut else none
+      let m := Gen.checkCircularForward bidx inc.toNat out.toNat (al == 1)
+      if rs != (if m then "1" else "0") then
+        s ← mismatch s s!"circ: model={m} impl={rs} :: {line}"
+      -- (S) a forward may be refused as circular only if circular routes are disallowed and
+      --     both ids name the same channel
+      let same := inc == out || (biIn ≥ 0 && biIn == biOut)
+      if same then s := { s with circSameChannel := s.circSameChannel + 1, nontrivial := s.nontrivial + 1 }
+      if rs != "0" then
+        s := { s with circRefused := s.circRefused + 1 }
+        if al == 1 || !same then
+          s ← monitor s "circular-refusal-unjustified" s!"refused as circular although {if al == 1 then "circular routes are allowed" else "the ids name different channels"} :: {line}"
+      return s
+    | _, _ => mismatch s s!"circ: malformed :: {line.take 80}"
   | "efee" :: rest =>
     let (args, res) := splitArrow rest
     let some xs := ints? args | mismatch s "efee: bad integer"
@@ -662,6 +921,21 @@ def main : IO Unit := do
   IO.println s!"STAT switch_forwarded={s.swForwarded}"
   IO.println s!"STAT switch_mixed_candidates={s.swMixed}"
   IO.println s!"STAT switch_forwarded_over_other_than_requested={s.swNotRequested}"
+  IO.println s!"STAT e2e_forward_evals={s.e2e}"
+  IO.println s!"STAT e2e_send_evals={s.e2eSend}"
+  IO.println s!"STAT e2e_forwarded_or_sent={s.e2eForwarded}"
+  IO.println s!"STAT e2e_refused_by_sender={s.e2eLocal}"
+  IO.println s!"STAT e2e_at_a_threshold={s.e2eBoundary}"
+  IO.println s!"STAT aux_shaper_evals={s.aux}"
+  IO.println s!"STAT aux_shaper_custom_htlc={s.auxCustom}"
+  IO.println s!"STAT aux_shaper_handles_channel={s.auxHandled}"
+  IO.println s!"STAT aux_shaper_error={s.auxError}"
+  IO.println s!"STAT circular_check_calls={s.circ}"
+  IO.println s!"STAT circular_check_same_channel={s.circSameChannel}"
+  IO.println s!"STAT circular_check_refused={s.circRefused}"
+  IO.println s!"STAT fail_alias_update_calls={s.fau}"
+  IO.println s!"STAT fail_alias_update_some={s.fauSome}"
+  IO.println s!"STAT fail_alias_update_relabelled={s.fauRelabelled}"
   IO.println s!"STAT in_realistic_domain={s.inDom}"
   IO.println s!"STAT verdict_differs_from_exact_by_wraparound={s.wrapAffected}"
   IO.println s!"STAT inbound_int64_overflow_in_planned_domain={s.inbOverflow}"
